@@ -21,6 +21,7 @@ use core::ptr;
 use core::sync::atomic::AtomicPtr;
 #[cfg(arc_swap_verif)]
 use verif_rt::atomic::AtomicPtr;
+use core::sync::atomic::fence;
 use core::sync::atomic::Ordering::*;
 
 use super::sealed::{CaS, InnerStrategy, Protected};
@@ -66,6 +67,13 @@ impl<T: RefCnt> HybridProtection<T> {
         } else {
             // It changed in the meantime, but the debt for the previous pointer was already paid
             // for by someone else, so we are fine using it.
+            //
+            // We have to synchronize with whoever paid it, though. The address may have been
+            // reused for a *newer* value that got stored (and replaced again) only after our
+            // confirming read above; nothing we have read so far would then order the
+            // initialization of that value before our use of it. The failed compare-exchange in
+            // `pay` is Relaxed, the fence turns it into an acquire of the payer's release.
+            fence(Acquire);
             #[cfg(arc_swap_verif)]
             verif_rt::event(verif_rt::probes::FAST_CHANGED_PAID, debt as *const Debt as usize);
             #[cfg(arc_swap_verif)]
